@@ -2,6 +2,7 @@
 CONSTANTS
   SS = 2
   MaxW = 4
+  Progs <- MCProgs
   Configs <- CfgThorough
 SPECIFICATION FairSpec
 CHECK_DEADLOCK TRUE
